@@ -988,13 +988,15 @@ main(int argc, char** argv)
     const std::size_t n07 = do07 ? E07.total() * 2 : 0;                    // x2: without / with overrides
     const std::size_t n17 = do17 ? E17.total() * c17_n_variants : 0;       // x override-map variants
     const std::size_t n_enum = n07 + n17;
+    // C08 sweep: only every `enumdiv`-th enumerated tuple (the enumeration itself belongs to C07 / C17)
+    const std::size_t enumdiv = static_cast<std::size_t>(std::max<long>(1, a.geti("enumdiv", 1)));
     auto local_count = [&](std::size_t total)
     {
         // number of t in [0,total) with t % nshards == shard
         std::size_t ns = static_cast<std::size_t>(a.nshards), s = static_cast<std::size_t>(a.shard);
         return total / ns + (s < total % ns ? 1 : 0);
     };
-    const long n_enum_local = static_cast<long>(local_count(n_enum));
+    const long n_enum_local = static_cast<long>(local_count(n_enum) / enumdiv);
     const long n_random = a.geti("random", thorough ? 400 : 40);
     Args a2 = a;
     a2.cases = n_enum_local + n_random;
@@ -1008,7 +1010,7 @@ main(int argc, char** argv)
                        {
                            if (k < n_enum_local)
                            {
-                               std::size_t t = static_cast<std::size_t>(k) * static_cast<std::size_t>(a.nshards)
+                               std::size_t t = static_cast<std::size_t>(k) * enumdiv * static_cast<std::size_t>(a.nshards)
                                                + static_cast<std::size_t>(a.shard);
                                // bijection on [0, n_enum) so that every shard sees every border class
                                // (n_enum = 2^a 3^b 7^c 11^d.. never a multiple of 10007)
